@@ -2,6 +2,7 @@ import OpusProofs.RangeCoderRoundTrip
 import OpusProofs.RangeCoderStageA2
 import OpusProofs.RangeCoderBudget
 import OpusProofs.RangeCoderPatchRun
+import OpusProofs.RangeCoderLockstep3
 /-
   Property C08 — "Range coder: the decoder inverts the encoder symbol for symbol, within budget".
 
@@ -14,12 +15,16 @@ import OpusProofs.RangeCoderPatchRun
   Vocabulary (OpusProofs/RangeCoder*.lean):
     `RngOk c`          2^23 < c.rng ≤ 2^31
     `Op.Legal`         documented parameter domain of one call (ft ≤ 2^16, logp 1..15, 1..25 raw bits, …)
-    `Op.LegalAt c op`  `Op.Legal`, plus for `ec_enc_shrink` its assert and "only shrinks";
-                       `ec_enc_patch_initial_bits` is excluded (see `UNPROVED` in tools/props/C08.py)
+    `Op.LegalAt c op`  `Op.Legal`, plus for `ec_enc_shrink` its assert and "only shrinks"; false for
+                       `ec_enc_patch_initial_bits` (patch-style streams: `LegalAtP n`, `LegalRunP n`)
     `LegalRun c ops`   every operation of the list is `LegalAt` the state it is applied to
+    `LegalRunP n c ops` the same, additionally allowing `ec_enc_patch_initial_bits(v, n)` with `v < 2^n`
+    `lastPatch fl ops` the value last patched by `ops` (`fl` if none)
     `MatchAll ops xs`  the decoder's return values `xs` are, one by one, the values `ops` encoded
-    `DecAll B S e d`   invariant D: decoder `d` reading the `S`-byte stream `B` mirrors encoder `e`
+                       (`ec_decode`/`ec_decode_bin`: a cumulative frequency inside the symbol's `[fl, fh)`)
+    `DecAll B S e d B` invariant D: decoder `d` reading the `S`-byte stream `B` mirrors encoder `e`
                        (same rng, same nbits_total, val = top − code, same raw-bit position, error 0)
+    `ShrinksOk c ops`  every `ec_enc_shrink` of the list satisfies its assert and does not grow the buffer
 -/
 namespace OpusProps.C08
 open Opus Opus.RangeCoder
@@ -61,6 +66,25 @@ theorem tell_monotone (c : Enc) (op : Op) (hr : RngOk c) (hl : op.Legal) (hn : 3
   encOp_tell_mono c op hr hl hn hn2
 
 example : tellFrac (encInit [0, 0] 2) < tellFrac (encOp (encInit [0, 0] 2) (.bitLogp 1 3)) := by decide +kernel
+
+/-- "After every operation encoder and decoder report the same whole and fractional bit usage and the
+    same range", in the form "given equal symbols" (no assumption on the buffer or on the encoder's
+    error flag): if the decoder state has the encoder's `rng` and `nbits_total` and the decoder call
+    returns the value the operation encoded, both sides agree again after the call on `rng`,
+    `nbits_total`, `ec_tell` and `ec_tell_frac`.  For `ec_dec_uint` (which reports an out-of-range value
+    only through its error flag) the decoder's `val` must be an `opus_uint32` and its error flag clear
+    before and after the call. -/
+theorem lockstep_symbols (e : Enc) (d : Dec) (op : Op) (hr : RngOk e) (h1 : d.rng = e.rng)
+    (h2 : d.nbitsTotal = e.nbitsTotal) (hl : op.Legal)
+    (hu : (∀ v ft, op ≠ .uint v ft) ∨ (d.val < 4294967296 ∧ d.error = 0 ∧ (decOp d op).2.error = 0))
+    (hm : op.Matches (decOp d op).1) :
+    (decOp d op).2.rng = (encOp e op).rng ∧ (decOp d op).2.nbitsTotal = (encOp e op).nbitsTotal ∧
+    tell (decOp d op).2 = tell (encOp e op) ∧ tellFrac (decOp d op).2 = tellFrac (encOp e op) :=
+  lockstep_symbols_all e d op hr h1 h2 hl hu hm
+
+example : (Op.icdf 1 [3, 1, 0] 2).Legal ∧
+    (Op.icdf 1 [3, 1, 0] 2).Matches (decOp (decInit [160, 0, 0, 0] 4) (.icdf 1 [3, 1, 0] 2)).1 ∧
+    (decInit [160, 0, 0, 0] 4).rng = (encInit [0, 0, 0, 0] 4).rng := by decide +kernel
 
 /-! ## Stages B and C — the decoder inverts the encoder -/
 
